@@ -42,10 +42,10 @@ impl Monitor for C13 {
         "cases = a universe, a pool of 4 problems over it and a history of 2-6 solve calls on ONE solver (same or different problems; calls may be cancelled at a random poll index, transiently or sticky-then-cleared, synchronously or under the manual executor so that cancellation happens while provider futures are parked). Model per call: a FRESH solver on the same problem. Oracle: the call terminates (no deadlock under the executor, no panic, step budget), gives the fresh solver's verdict, its solution is valid (reference + hook invariants), and no provider request that COMPLETED earlier in the solver's log (CandRet / DepsRet) is issued again. distinct = content hash of (universe, history); non-trivial = history containing a call cancelled while >= 1 provider future was parked, followed by a call that fetched or needed the interrupted package".into()
     }
     fn cases(&self, tier: Tier) -> u64 {
-        tier.pick(20_000, 1_000_000)
+        tier.pick(160_000, 3_200_000)
     }
     fn floor(&self, tier: Tier) -> u64 {
-        tier.pick(500, 25_000)
+        tier.pick(2_000, 20_000)
     }
     fn generate(&self, r: &mut Rng, _tier: Tier, _i: u64) -> C13Case {
         let (name, cfg) = pick_family(r, FAMILIES);
